@@ -1,4 +1,5 @@
 """Per-property configuration of the checks (harnesses, process counts per tier, theorem module)."""
+import os
 
 COMMON_TRUST = ["correspondence harness (C++/MPI, calls the real classes in-process) and tools/check.py",
                 "g++/mpicxx 12.2, Open MPI 4.1.4"]
@@ -16,10 +17,30 @@ def simple(harness, quick_np, thorough_np, **kw):
 
 PROPS = {}
 
+def c18_translate(log):
+    """regenerate lean/RaptorModel/Generated/*.lean from /repo's current headers (clang-14 AST)"""
+    import cxx2lean
+    rep = cxx2lean.generate(os.path.join(os.path.dirname(os.path.dirname(os.path.abspath(__file__))), "lean", "RaptorModel", "Generated"))
+    bad = [f"{c}.{n}: {m}" for c, r in rep.items() for n, ok, m in r if not ok]
+    good = [f"{c}.{n}" for c, r in rep.items() for n, ok, m in r if ok]
+    return f"translated {', '.join(good)}" + (f"; TRANSLATION ERRORS: {'; '.join(bad)}" if bad else "")
+
+
+def c18_configs(tier, seed):
+    cfgs = simple("h_c18", [1, 2, 3, 5, 8, 16], list(range(1, 17)))(tier, seed)
+    # the constructors are inline in the headers: compiled without optimisation a division by zero traps instead of
+    # being scheduled away (undefined behaviour the optimiser may hide)
+    for n in ([2] if tier == "quick" else [1, 2, 5]):
+        cfgs.append({"tag": f"h_c18-O0-np{n}", "harness": "h_c18", "np": n, "cxx": "-O0"})
+    return cfgs
+
+
 PROPS["C18"] = dict(
     module="RaptorModel.Props.C18",
     harnesses=["h_c18"],
-    configs=simple("h_c18", [1, 2, 3, 5, 8, 16], list(range(1, 17))),
+    pre_build=c18_translate,
+    extra_theorem_modules=["RaptorModel.Props.C18Bridge"],
+    configs=c18_configs,
     exhaustive={"thorough": True, "quick": False},
     rule=("every (rows, cols) in 0..N x 0..N (N=12 quick, 40 thorough) for the default constructor, block constructor "
           "(block sizes 1..3 dividing the sizes), explicit sizes with empty ranks and transposed partitions, on every "
@@ -183,7 +204,8 @@ def amg_configs(mode, quick_np, thorough_np):
     def configs(tier, seed):
         # PPN divides np (ragged last nodes are the known node-aware finding, exercised by C03/C04)
         return [{"tag": f"h_amg-{mode}-np{n}", "harness": "h_amg", "np": n, "args": [mode],
-                 "env": {"PPN": 2 if n % 2 == 0 else n}} for n in nps(tier, quick_np, thorough_np)]
+                 "env": {"PPN": 2 if n % 2 == 0 else n}} for n in nps(tier, quick_np, thorough_np)] + \
+               [{"tag": f"h_amg-{mode}-seqclasses", "harness": "h_amg", "np": 1, "args": [mode, "seq"]}]
     return configs
 
 
